@@ -160,7 +160,7 @@ def selections(rnd, m, op):
     elif op == 'cut_type':
         for t in m['blocks']:
             out.append(('type', T_IDX[t]))
-        absent = [t for t in ('tri', 'hex', 'tet') if t not in m['blocks']]
+        absent = [t for t in ('tri', 'hex', 'tet', 'spring') if t not in m['blocks']]
         out.append(('outside:absent-type', T_IDX[absent[0]]))
     elif op == 'cut_nids':
         for st in styles:
@@ -365,6 +365,18 @@ def first(d, i):
     return v[0] if v else None
 
 
+def face_counts(m):
+    """vertex set of every face of every element -> number of occurrences (hand specification of the face tables)"""
+    count = {}
+    for t, b in m['blocks'].items():
+        tbl = [list(range(G.ARITY[t]))] if t in ('tri', 'quad') else G.FACES['tet' if t == 'tet2' else t]
+        for _, c in b:
+            for f in tbl:
+                k = frozenset(c[i] for i in f)
+                count[k] = count.get(k, 0) + 1
+    return count
+
+
 def oracle(m, vs, op, sel, out, check_vars=None):
     """violations of the property by the real result `out` (= observe(result)); [(signature, text)]"""
     bad = []
@@ -471,6 +483,15 @@ def oracle(m, vs, op, sel, out, check_vars=None):
     if want_n is not None and set(nodes) != want_n:
         bad.append(('selection:nodes', f'retained nodes: {sorted(set(nodes) - want_n)[:5]} unexpected, {sorted(want_n - set(nodes))[:5]} missing'))
     if op in ('surface', 'facets'):
+        # the new elements are exactly the (once-only, for the surface) faces of the input elements, as vertex sets
+        # (hand specification of the per-type face tables: meshgen.FACES; tri / quad elements are their own face)
+        count = face_counts(m)
+        want_f = {f for f, k in count.items() if k == 1} if op == 'surface' else set(count)
+        got_f = [frozenset(v[0][1]) for v in elems.values()]
+        if set(got_f) != want_f or len(got_f) != len(want_f):
+            bad.append(('selection:facets', f'{len(set(got_f) - want_f)} new elements are not '
+                        f'{"boundary " if op == "surface" else ""}faces of the input, {len(want_f - set(got_f))} faces are missing, '
+                        f'{len(got_f) - len(set(got_f))} are repeated'))
         if sorted(elems) != list(range(1, len(elems) + 1)):
             bad.append(('selection:facet-ids', 'facet elements are not numbered 1..k'))
         if out['elemental']:
@@ -560,7 +581,10 @@ def one_mesh(ctx, rnd, pending, misaligned=False):
                 expected = (op in ('surface', 'facets') and impl[1] == 'other') or \
                            (op == 'first_order' and impl[1] == 'value' and
                             any('2' in t and t not in ('tet2', 'hex2') for t in m['blocks']))
-                if expected:
+                if not expected and op == 'surface' and impl[1] == 'value' and 1 not in face_counts(m).values():
+                    # every face is shared (duplicated elements): there is no surface to return
+                    ctx.count('outside:empty-surface:raised:value')
+                elif expected:
                     ctx.count(f'unsupported-type:{op}')
                 else:
                     ctx.fail(f'{op}:raises', f'{op} ({style}) raised {impl[1]} on a well-formed mesh and selection', case.json(), impl[1])
